@@ -100,3 +100,14 @@ U("cJSON_AddStringToObject", "cjson", "harness/cJSON_AddStringToObject.c", enfor
 U("cJSON_AddRawToObject", "cjson", "harness/cJSON_AddRawToObject.c", enforce="cJSON_AddRawToObject", shape="U", props=["C06", "C07", "C08", "C14", "C20"], covers=3, defs=["-DVF_CREATE_VIEWS"], replace=["cJSON_CreateRaw", "add_item_to_object", "cJSON_Delete"])
 U("cJSON_AddObjectToObject", "cjson", "harness/cJSON_AddObjectToObject.c", enforce="cJSON_AddObjectToObject", shape="U", props=["C06", "C07", "C08", "C14", "C20"], covers=3, defs=["-DVF_CREATE_VIEWS"], replace=["cJSON_CreateObject", "add_item_to_object", "cJSON_Delete"])
 U("cJSON_AddArrayToObject", "cjson", "harness/cJSON_AddArrayToObject.c", enforce="cJSON_AddArrayToObject", shape="U", props=["C06", "C07", "C08", "C14", "C20"], covers=3, defs=["-DVF_CREATE_VIEWS"], replace=["cJSON_CreateArray", "add_item_to_object", "cJSON_Delete"])
+U("cJSON_CreateString", "cjson", "harness/cJSON_CreateString.c", enforce="cJSON_CreateString", shape="U", props=["C06", "C07", "C08", "C14", "C20"], covers=2,
+  replace=["cJSON_strdup/cJSON_strdup_cv", "cJSON_Delete"])
+U("cJSON_CreateRaw", "cjson", "harness/cJSON_CreateRaw.c", enforce="cJSON_CreateRaw", shape="U", props=["C06", "C07", "C08", "C14", "C20"], covers=2,
+  replace=["cJSON_strdup/cJSON_strdup_cv", "cJSON_Delete"])
+U("cJSON_CreateStringReference", "cjson", "harness/cJSON_CreateStringReference.c", enforce="cJSON_CreateStringReference", shape="U", props=["C06", "C07", "C08", "C14", "C20"], covers=2)
+U("cJSON_CreateObjectReference", "cjson", "harness/cJSON_CreateObjectReference.c", enforce="cJSON_CreateObjectReference", shape="U", props=["C06", "C07", "C08", "C14", "C20"], covers=2)
+U("cJSON_CreateArrayReference", "cjson", "harness/cJSON_CreateArrayReference.c", enforce="cJSON_CreateArrayReference", shape="U", props=["C06", "C07", "C08", "C14", "C20"], covers=2)
+U("cJSON_AddItemReferenceToArray", "cjson", "harness/cJSON_AddItemReferenceToArray.c", enforce="cJSON_AddItemReferenceToArray", shape="U", props=["C06", "C07", "C08", "C14", "C20"], covers=3,
+  defs=["-DVF_REF_VIEWS"], replace=["create_reference/create_reference_cv", "add_item_to_array/add_item_to_array_cv"])
+U("cJSON_AddItemReferenceToObject", "cjson", "harness/cJSON_AddItemReferenceToObject.c", enforce="cJSON_AddItemReferenceToObject", shape="U", props=["C06", "C07", "C08", "C14", "C20"], covers=3,
+  defs=["-DVF_REF_VIEWS"], replace=["create_reference/create_reference_cv", "add_item_to_object", "cJSON_Delete"])
